@@ -288,7 +288,7 @@ func runC04(r *core.Run) {
 			}
 			add(sql2+" / "+sql3, "bucket:groupnest:"+kind, cpu, map[string]interface{}{"kind": "groupnest", "keys": keys, "n": n2, "n1": n3}, t.Rows)
 		case 1: // GROUP BY with aggregates
-			sql := "SELECT " + kcols + ", COUNT(*) AS c, COUNT(v) AS cv, SUM(v) AS s, MIN(v) AS mn, MAX(v) AS mx, AVG(v) AS av, COUNT(DISTINCT 1) AS c1, COUNT(DISTINCT v) AS cd, LISTAGG(id, ',') WITHIN GROUP (ORDER BY id) AS ids, ucnt(v) AS ua, unn(v) AS un, MEDIAN(v) AS md, LISTAGG(id, ',') WITHIN GROUP (ORDER BY id * -1, LEN(k1)) AS ids2 FROM t GROUP BY " + kcols
+			sql := "SELECT " + kcols + ", COUNT(*) AS c, COUNT(v) AS cv, SUM(v) AS s, MIN(v) AS mn, MAX(v) AS mx, AVG(v) AS av, COUNT(DISTINCT 1) AS c1, COUNT(DISTINCT v) AS cd, LISTAGG(id, ',') WITHIN GROUP (ORDER BY id) AS ids, ucnt(v) AS ua, unn(v) AS un, MEDIAN(v) AS md, LISTAGG(id, ',') WITHIN GROUP (ORDER BY id * -1, LEN(k1)) AS ids2, COUNT(DISTINCT k2) AS cdk FROM t GROUP BY " + kcols
 			res, _, e := x.query(sql + ";")
 			if e != "" {
 				if !errRep[e] {
@@ -343,6 +343,12 @@ func runC04(r *core.Run) {
 				}
 				sort.Ints(ids2)
 				g["ids2"] = ids2
+				// COUNT(DISTINCT k2): the number of buckets the texts of k2 form inside the group (judged when k2 is not a grouping key)
+				if cdk, e6 := strconv.Atoi(row[nk+13].T); e6 == nil {
+					g["cdk"] = cdk
+				} else {
+					bad = "COUNT(DISTINCT k2) is not an integer: " + row[nk+13].T
+				}
 				ua, e6 := strconv.Atoi(row[nk+9].T)
 				un, e7 := strconv.Atoi(row[nk+10].T)
 				if e6 != nil || e7 != nil {
@@ -393,11 +399,12 @@ func runC04(r *core.Run) {
 			if kind == "dtwrap" {
 				compressNumeric(keys, reskeys)
 			}
+			ks := projectCells(t.Rows, 2)
 			if strict {
-				strictKeys(keys, reskeys)
+				strictKeys(keys, reskeys, ks)
 			}
-			rankStrings(keys, reskeys)
-			add(sql, "bucket:group:"+kind, cpu, map[string]interface{}{"kind": "group", "keys": keys, "vals": vals, "res": groups}, t.Rows)
+			rankStrings(keys, reskeys, ks)
+			add(sql, "bucket:group:"+kind, cpu, map[string]interface{}{"kind": "group", "keys": keys, "vals": vals, "res": groups, "ks": ks, "judgeks": !two && c%11 != 3}, t.Rows)
 		case 2: // set operators
 			op := []string{"union", "except", "intersect"}[rng.Intn(3)]
 			all := rng.Intn(2) == 0
